@@ -298,6 +298,8 @@ func explore(c Case, maxStates int, budget time.Duration, par int) outcome {
 
 func classify(v string) string {
 	switch {
+	case strings.Contains(v, "no unit is in the Merging state"):
+		return "merge-not-claimed"
 	case strings.HasPrefix(v, "harness"):
 		return "harness"
 	case strings.HasPrefix(v, "deadlock"):
